@@ -170,9 +170,24 @@ def handler(state, opts):
                 ranks_known = False
     # the value after set_core depends on the other cores, i.e. on the representation the implementation chose
     # for a derived object: compared only for user-supplied objects that were never restructured
+    # taint tracking over the whole history: an object whose value depends on the representation chosen by the implementation
+    # (set_core on a derived / restructured object) and everything computed from it
+    NOOBJ = {"full", "norm", "sum_all", "numpy", "repr", "set_core", "reduce_dims"}
+    tainted, restructured, nobj = set(), set(), len(h0)
+    for h in hist:
+        a0 = h["a"][0] - 1
+        if h["op"] == "reduce_dims":
+            restructured.add(a0)
+        elif h["op"] == "set_core":
+            if a0 >= len(h0) or a0 in restructured or a0 in tainted:
+                tainted.add(a0)
+        elif h["op"] not in NOOBJ:
+            if any((i - 1) in tainted for i in h["a"]):
+                tainted.add(nobj)
+            if any((i - 1) in restructured for i in h["a"]):
+                pass
+            nobj += 1
     tgt = last["a"][0] - 1
-    value_known = not (last["op"] == "set_core" and (tgt >= len(h0) or any(
-        h["op"] == "reduce_dims" and h["a"][0] - 1 == tgt for h in hist[:-1])))
     for n in range(min(len(objs), len(heap))):
         if n < npre and n not in mutated:
             continue         # unchanged objects were compared bitwise above; their model entry was checked by the prefix state
@@ -188,7 +203,7 @@ def handler(state, opts):
         if ranks_known and d["R"] != md["R"]:
             problems.append(P(owner, "ranks", "history %s: object %d has ranks %s, the rank law gives %s" % (
                 [h["op"] for h in hist], n + 1, d["R"], md["R"])))
-        if not value_known:
+        if n in tainted:
             continue
         got = project.dense(objs[n].cores).numpy()
         exp = model_dense(heap[n])
